@@ -362,8 +362,16 @@ def REPLAY(check_name, violation):
     inp = violation["input"]
     if isinstance(inp, str):
         inp = json.loads(inp)
-    if "records" not in inp:
-        return {"violated": None, "note": "hash-seed comparison: re-run the thorough tier"}
+    if "records" not in inp:                      # hash-seed comparison: the structure under both hash seeds
+        canon = []
+        for h in inp["hash_seeds"]:
+            p = _spawn([inp["structure"]], inp["n_pep"], h)
+            out = json.loads(p.stdout.read())
+            p.wait()
+            if out["violations"]:
+                return {"violated": True, "detail": out["violations"][:2]}
+            canon.append(out["canon"])
+        return {"violated": canon[0] != canon[1], "detail": canon}
     kw = {k: inp[k] for k in ("missed_cleavages", "clip_nterm_methionine", "min_length") if k in inp}
 
     def one(records):
